@@ -147,7 +147,8 @@ impl Env {
 // workers, minimisation, replay) registers the scenario it is executing.
 
 pub struct Watch {
-    slots: Mutex<Vec<(u64, String, Instant)>>,
+    /// (id, scenario json, start, kernel thread id of the executing thread)
+    slots: Mutex<Vec<(u64, String, Instant, u64)>>,
     next: AtomicU64,
 }
 pub static WATCH: std::sync::OnceLock<Watch> = std::sync::OnceLock::new();
@@ -156,7 +157,7 @@ pub struct WatchGuard(u64);
 impl Drop for WatchGuard {
     fn drop(&mut self) {
         if let Some(w) = WATCH.get() {
-            w.slots.lock().unwrap().retain(|(id, _, _)| *id != self.0);
+            w.slots.lock().unwrap().retain(|(id, _, _, _)| *id != self.0);
         }
     }
 }
@@ -165,16 +166,38 @@ impl Drop for WatchGuard {
 pub fn watch(scn: &Scenario) -> WatchGuard {
     let w = WATCH.get_or_init(|| Watch { slots: Mutex::new(vec![]), next: AtomicU64::new(1) });
     let id = w.next.fetch_add(1, Ordering::SeqCst);
-    w.slots.lock().unwrap().push((id, serde_json::to_string(scn).unwrap(), Instant::now()));
+    w.slots.lock().unwrap().push((id, serde_json::to_string(scn).unwrap(), Instant::now(), my_tid()));
     WatchGuard(id)
+}
+
+thread_local! { static TID: u64 = std::fs::read_link("/proc/thread-self").ok().and_then(|p| p.file_name().and_then(|f| f.to_str().and_then(|x| x.parse().ok()))).unwrap_or(0); }
+fn my_tid() -> u64 {
+    TID.with(|t| *t)
+}
+
+/// CPU time (user + system, seconds) consumed so far by kernel thread `tid` of this process.
+fn thread_cpu_s(tid: u64) -> Option<f64> {
+    let st = std::fs::read_to_string(format!("/proc/self/task/{tid}/stat")).ok()?;
+    // fields after the parenthesised command name; utime and stime are fields 14 and 15 overall
+    let rest = st.rsplit_once(')')?.1;
+    let f: Vec<&str> = rest.split_whitespace().collect();
+    let (ut, stt) = (f.get(11)?.parse::<f64>().ok()?, f.get(12)?.parse::<f64>().ok()?);
+    Some((ut + stt) / 100.0)
 }
 
 pub fn start_watchdog(env: &Arc<Env>, property: String, replay_of: Option<String>) {
     let env = env.clone();
     let _ = WATCH.get_or_init(|| Watch { slots: Mutex::new(vec![]), next: AtomicU64::new(1) });
     std::thread::spawn(move || {
-        let limit = std::time::Duration::from_secs(90);
+        // A hang is a run that keeps BURNING CPU without finishing: 90 s of the executing
+        // thread's own CPU time inside one scenario (ordinary scenarios need milliseconds). Wall
+        // time alone proves nothing — the process may have been stopped, the VM suspended or the
+        // machine oversubscribed — so it only counts after an hour (a run blocked for good).
+        let cpu_limit = 90.0;
+        let wall_limit = std::time::Duration::from_secs(3600);
         let mem_limit: u64 = std::env::var("VERIF_MEM_LIMIT_MB").ok().and_then(|s| s.parse().ok()).unwrap_or(16_000) * 1024 * 1024;
+        // id -> CPU seconds of its thread when the run was first seen to be older than 5 s
+        let mut first_seen: std::collections::HashMap<u64, f64> = std::collections::HashMap::new();
         loop {
             std::thread::sleep(std::time::Duration::from_millis(25));
             let rss = std::fs::read_to_string("/proc/self/statm")
@@ -182,18 +205,34 @@ pub fn start_watchdog(env: &Arc<Env>, property: String, replay_of: Option<String
                 .and_then(|s| s.split_whitespace().nth(1).and_then(|x| x.parse::<u64>().ok()))
                 .map(|pages| pages * 4096)
                 .unwrap_or(0);
-            let oldest: Option<(String, std::time::Duration)> = {
+            let old: Vec<(u64, String, std::time::Duration, u64)> = {
                 let g = WATCH.get().unwrap().slots.lock().unwrap();
-                g.iter().map(|(_, js, t)| (js.clone(), t.elapsed())).max_by_key(|(_, d)| *d)
+                g.iter().filter(|(_, _, t, _)| t.elapsed().as_secs() >= 5 || rss > mem_limit).map(|(id, js, t, tid)| (*id, js.clone(), t.elapsed(), *tid)).collect()
             };
-            let Some((js, age)) = oldest else { continue };
-            let why = if age > limit {
-                format!("one run made no progress for {}s of real time", age.as_secs())
-            } else if rss > mem_limit && age.as_millis() > 300 {
-                format!("resident memory grew to {} MB while one run was executing", rss >> 20)
-            } else {
-                continue;
-            };
+            first_seen.retain(|id, _| old.iter().any(|o| o.0 == *id));
+            let mut verdict: Option<(String, String)> = None;
+            for (id, js, age, tid) in &old {
+                let cpu = thread_cpu_s(*tid);
+                let burnt = match (cpu, first_seen.get(id)) {
+                    (Some(c), Some(f)) => c - f,
+                    (Some(c), None) => {
+                        first_seen.insert(*id, c);
+                        0.0
+                    }
+                    _ => 0.0,
+                };
+                if burnt > cpu_limit {
+                    verdict = Some((js.clone(), format!("one run burnt {burnt:.0}s of CPU time ({}s of real time) without finishing", age.as_secs())));
+                } else if *age > wall_limit {
+                    verdict = Some((js.clone(), format!("one run made no progress for {}s of real time", age.as_secs())));
+                } else if rss > mem_limit && age.as_millis() > 300 {
+                    verdict = Some((js.clone(), format!("resident memory grew to {} MB while one run was executing", rss >> 20)));
+                }
+                if verdict.is_some() {
+                    break;
+                }
+            }
+            let Some((js, why)) = verdict else { continue };
             let path = match &replay_of {
                 Some(p) => p.clone(),
                 None => {
